@@ -12,13 +12,13 @@ CLAIMED = {
    "DESIGN.md §6 C11",
    "Lean kernel; axioms propext/Classical.choice/Quot.sound only; hand-written model tied by correspondence (differential), harness and runner trusted.",
    "Lean 4 refinement proof (invariant + abstraction function) + exhaustive/random correspondence with pest::Stack"),
- "C10": ("other",
-   "Lean 4 model of Position::line_col/line_of, LineIndex, Span::new/lines_span and Error::new_from_pos/new_from_span/underline/format (every usize subtraction, slice and unreachable! an explicit panic outcome), with the counting definitions as specification; theorems (lineCol_spec, lineIndex_eq, lineOf_spec, spanNew_iff, linesSpan_spec, render_total, render_shows) are stated and being proved; tied to the code by an exhaustive correspondence (all strings to 5/6 characters over {a, LF, CR, TAB, 2- and 3-byte chars} x all offsets and ordered offset pairs, byte-exact Display output) with the counting definitions also evaluated on the implementation as oracle.",
+ "C10": ("proof",
+   "Lean 4 model of Position::line_col/line_of, LineIndex, Span::new/lines_span and Error::new_from_pos/new_from_span/underline/format (every usize subtraction, slice and unreachable! an explicit panic outcome), with the counting definitions as specification; kernel-checked theorems for all strings and offsets: splitAt_iff, lineCol_spec, lineIndex_eq, lineOf_spec, spanNew_iff, linesSpan_spec, render_total_pos, render_total_span, render_shows_pos; tied to the code by an exhaustive correspondence (all strings to 5/6 characters over {a, LF, CR, TAB, 2- and 3-byte chars} x all offsets and ordered offset pairs, byte-exact Display output) with the counting definitions also evaluated on the implementation as oracle.",
    "DESIGN.md §6 C10",
    "Lean kernel; axioms propext/Classical.choice/Quot.sound only; hand-written model tied by correspondence; slice::partition_point, String::replace and format! padding modelled by their contracts.",
    "Lean 4 model + theorems against counting definitions + exhaustive correspondence with pest Position/Span/LineIndex/Error"),
- "C13": ("other",
-   "Lean 4 model of PrattParserMap::expr/nud/led/lbp, PrattParser::op / ConstPrattParser::new_const level assignment and PrecClimber::climb_rec (three-valued results: ok / Rust panic / model fuel), with the classical shunting-yard machine as specification; theorems (pratt_total, pratt_yield, pratt_eq_shuntingYard, levels_iso, const_eq_pratt, climber_eq) stated and being proved; tied to the code by correspondence on random tables x sequences through PairsBuilder (all three parsers), with a Rust shunting-yard evaluated on the implementation as oracle.",
+ "C13": ("proof",
+   "Lean 4 model of PrattParserMap::expr/nud/led/lbp, PrattParser::op / ConstPrattParser::new_const level assignment and PrecClimber::climb_rec (three-valued results: ok / Rust panic / model fuel), with the classical shunting-yard machine as specification; kernel-checked theorems for every table and well-formed sequence: pratt_total, pratt_yield, pratt_eq_shuntingYard, levels_iso, const_eq_pratt, climber_eq, prattTable_pos, constTable_pos; tied to the code by correspondence on random tables x sequences through PairsBuilder (all three parsers), with a Rust shunting-yard evaluated on the implementation as oracle.",
    "DESIGN.md §6 C13",
    "Lean kernel; axioms propext/Classical.choice/Quot.sound only; hand-written model tied by correspondence; Prec as Nat (u32 overflow out of scope).",
    "Lean 4 model + simulation proof against shunting-yard + random correspondence with PrattParser/ConstPrattParser/PrecClimber"),
